@@ -275,7 +275,9 @@ func (u *UserHash) SetAdmin(adminState bool) error {
 		return fmt.Errorf("whawty.auth.store: user '%s' does not exist", u.user)
 	}
 	if isAdmin == adminState {
-		return nil
+		// Nothing to rename, but the state we are about to acknowledge may stem from an
+		// earlier call that failed after its rename - make sure it is on disk.
+		return syncDir(u.store.BaseDir)
 	}
 
 	oldname := filepath.Join(u.store.BaseDir, u.user)
